@@ -1,0 +1,12 @@
+//go:build verif
+
+// Contracts for govc (contract-based verification, /verif). Comment-only file.
+
+package crypto
+
+//@ func (h Hash) HasValue
+//@   pure
+//@   ensures result <==> exists i int :: 0 <= i && i < 32 && h[i] != 0
+
+//@ assume func Blake3Hash(data)
+//@   modifies nothing
